@@ -100,6 +100,13 @@ def main(argv=None):
         seed = 0
     repo = _check_repo()
     mod = _load(prop)
+    from mc import procstate
+
+    # record the process-level state of the freshly imported menelaus modules NOW, before tasks() or the derived families
+    # construct a detector in this (parent) process: the workers are forked later and must not take state that a detector
+    # already touched for the pristine one (on the unchanged tree there is no such state; on a changed tree verdicts found
+    # in a worker would otherwise not replay in a fresh process)
+    procstate.reset()
 
     from mc import evidence, findings, replay
 
